@@ -50,10 +50,20 @@ void TYPES_INSERT(char* set, char* il, uint64_t n) { __CPROVER_assert(set == TYP
   __CPROVER_assert(n == 2 && ((char**)il)[0] == (char*)&pool[want_to] && ((char**)il)[1] == (char*)&pool[want_from], "C13: both bare types of the new conversion become convertible types");
   ins_types++; uint64_t k = nondet_u8() % 3; ins_added = (int)k; SET_COUNT(TYPES) += k; }
 static char my_cache[48] __attribute__((aligned(8))); static int in_cache[4];
+static char* last_dst;
+#ifdef OFF_TC_thread_cache
+#define CACHE_IS_MINE(p) ((p) == my_cache)
+#else       /* a tree without the per-engine member: for C13 it is enough that the cache is not one of the shared tables (whose cache it is: C14 K2) */
+#define CACHE_IS_MINE(p) ((p) != TYPES && (p) != CONVS && (p) != tc)
+#endif
+#ifdef OFF_TC_thread_cache
 char* CACHE_SLOT(char* map, char* key) { __CPROVER_assert(key == tc + OFF_TC_thread_cache, "C14: the thread-local slot is looked up by the key of this storage object (m_key, its first member)"); return my_cache; }
-char* TREE_ASSIGN(char* dst, char* src) { __CPROVER_assert(mode >= SHARED, "C13: m_convertableTypes is copied only with the mutex held"); __CPROVER_assert(src == TYPES && dst == my_cache, "C13: the refresh copies the shared type set into the calling thread's cache");
+#else          /* the tree has no per-engine thread-local cache member: whatever thread_cache() hands out instead is judged by the assertions below and by C14 K2 */
+char* CACHE_SLOT(char* map, char* key) { return my_cache; }
+#endif
+char* TREE_ASSIGN(char* dst, char* src) { __CPROVER_assert(mode >= SHARED, "C13: m_convertableTypes is copied only with the mutex held"); __CPROVER_assert(src == TYPES && CACHE_IS_MINE(dst), "C13: the refresh copies the shared type set into the calling thread's cache"); last_dst = dst;
   copies++; SET_COUNT(dst) = SET_COUNT(src); return dst; }
-uint64_t SET_COUNT_FN(char* set, char* key) { __CPROVER_assert(set == my_cache, "C13: convertibility is looked up in the thread's own cache, never in the shared table without the lock");
+uint64_t SET_COUNT_FN(char* set, char* key) { __CPROVER_assert(CACHE_IS_MINE(set), "C13: convertibility is looked up in the thread's own cache, never in the shared table without the lock");
   char* t = *(char**)key; return t == (char*)&pool[0] ? in_cache[0] : t == (char*)&pool[1] ? in_cache[1] : t == (char*)&pool[2] ? in_cache[2] : 0; }
 uint32_t F___cxa_thread_atexit(char* f, char* o, char* d) { return 0; }
 void F__ZNSt12out_of_rangeC1ERKNSt7__cxx1112basic_stringIcSt11char_traitsIcESaIcEEE(char* s, char* m) { }
@@ -94,8 +104,12 @@ int main(void) {
 #elif ENTRY == 4
   uint64_t c0 = nondet_u8() % 9; SET_COUNT(my_cache) = c0; uint64_t n0 = ntypes;
   char* r = E_CACHE(tc);
-  __CPROVER_assert(!__exc_pending && r == my_cache, "C13: thread_cache() hands out the calling thread's own cache, never the shared table");
+  __CPROVER_assert(!__exc_pending && CACHE_IS_MINE(r), "C13: thread_cache() hands out the calling thread's own cache, never the shared table");
+#ifdef OFF_TC_thread_cache
   __CPROVER_assert(c0 != n0 ? (copies == 1 && lock_ops == 1 && SET_COUNT(my_cache) == n0) : (copies == 0 && lock_ops == 0), "C13: the cache is refreshed (under the lock) exactly when its size differs from the published number of types");
+#else
+  __CPROVER_assert(copies <= 1 && (!copies || (lock_ops == 1 && last_dst == r)), "C13: a refresh happens under the lock, into the cache that is handed out");
+#endif
   if (copies) __CPROVER_assert(0, "witness: refreshed"); else __CPROVER_assert(0, "witness: up to date");
 #elif ENTRY == 5
   SET_COUNT(my_cache) = nondet_u8() % 9; for (int i = 0; i < 3; i++) in_cache[i] = nondet_u8() & 1;
